@@ -550,4 +550,3 @@ func isDurationParam(fa *FuncAn, term string) bool {
 	}
 	return false
 }
-
